@@ -165,7 +165,7 @@ package gorm
 //@   when db.clone > 0
 //@   modifies nothing
 //@   ensures fresh-result: fresh(result)
-//@   ensures chain-in-progress: result.clone == 0 && result.Statement.DB == result [C06,C16,C15]
+//@   ensures chain-in-progress: result.clone == 0 && result.Statement != nil && result.Statement.DB == result [C06,C16,C15]
 //@   ensures parent-handle-untouched: objUnchanged(db) [C06,C13,C18,C05]
 //@   ensures parent-statement-untouched: objUnchanged(db.Statement) [C06,C13,C18,C05]
 //@   ensures keeps-skiphooks: result.Statement.SkipHooks == db.Statement.SkipHooks [C13]
@@ -178,7 +178,7 @@ package gorm
 //@   when db.clone > 0
 //@   modifies nothing
 //@   ensures fresh-result: fresh(result)
-//@   ensures chain-in-progress: result.clone == 0 && result.Statement.DB == result [C06,C16,C15]
+//@   ensures chain-in-progress: result.clone == 0 && result.Statement != nil && result.Statement.DB == result [C06,C16,C15]
 //@   ensures parent-handle-untouched: objUnchanged(db) [C06,C13,C18,C05]
 //@   ensures parent-statement-untouched: objUnchanged(db.Statement) [C06,C13,C18,C05]
 //@   ensures keeps-skiphooks: result.Statement.SkipHooks == db.Statement.SkipHooks [C13]
@@ -244,7 +244,7 @@ package gorm
 //@   ensures not-a-transaction: drvCommits == old(drvCommits) ==> db.Error != nil
 //@   ensures error-kept: old(db.Error) != nil ==> db.Error != nil
 //@   ensures same-handle: result == db
-//@   ensures still-chain-in-progress: result.clone <= 0 && result.Statement.DB == result && result.Statement == old(db.Statement)
+//@   ensures still-chain-in-progress: result.clone <= 0 && result.Statement != nil && result.Statement.DB == result && result.Statement == old(db.Statement)
 
 //@ func (*DB).Rollback
 //@   tags C04 C05
@@ -253,7 +253,7 @@ package gorm
 //@   ensures error-recorded: drvRollbacks == old(drvRollbacks) + 1 && drvRollbackErr != 0 ==> db.Error != nil
 //@   ensures error-kept: old(db.Error) != nil ==> db.Error != nil
 //@   ensures same-handle: result == db
-//@   ensures still-chain-in-progress: result.clone <= 0 && result.Statement.DB == result && result.Statement == old(db.Statement)
+//@   ensures still-chain-in-progress: result.clone <= 0 && result.Statement != nil && result.Statement.DB == result && result.Statement == old(db.Statement)
 
 //@ # ---------- C14: lock discipline of the prepared-statement cache (premises of the monitor argument) ----------
 //@ ghost held inserted closes prepares spawned prepErr evicted ranged waited usable protectedMap
@@ -505,10 +505,10 @@ package gorm
 //@ # ---------- chain methods on a chain in progress (clone == 0): they continue on the same handle ----------
 //@ funcalt chained (*DB).Model (*DB).Table (*DB).Omit (*DB).MapColumns (*DB).Where (*DB).Not (*DB).Or (*DB).Joins (*DB).InnerJoins (*DB).Group (*DB).Having (*DB).Order (*DB).Limit (*DB).Offset (*DB).Scopes (*DB).Preload (*DB).Attrs (*DB).Assign (*DB).Unscoped joins
 //@   tags C06
-//@   when db.clone <= 0 && db.Statement.DB == db
+//@   when db.clone <= 0 && db.Statement != nil && db.Statement.DB == db
 //@   modifies db.Statement.Model, db.Statement.Table, db.Statement.TableExpr, db.Statement.Omits, db.Statement.ColumnMapping, db.Statement.Preloads, db.Statement.attrs, db.Statement.assigns, db.Statement.Unscoped, db.Statement.SQL, db.Statement.Vars, db.Statement.Dest, db.Statement.Joins, db.Statement.scopes, db.Statement.Joins[*], db.Statement.scopes[*], db.Statement.Clauses[*], db.Statement.Preloads[*], db.Error
 //@   ensures same-handle: result == db
-//@   ensures still-chain-in-progress: result.clone <= 0 && result.Statement.DB == result && result.Statement == old(db.Statement)
+//@   ensures still-chain-in-progress: result.clone <= 0 && result.Statement != nil && result.Statement.DB == result && result.Statement == old(db.Statement)
 //@   ensures keeps-skiphooks: result.Statement.SkipHooks == old(db.Statement.SkipHooks) [C13]
 //@   ensures keeps-context: result.Statement.Context == old(db.Statement.Context) [C18]
 //@   ensures keeps-connpool: result.Statement.ConnPool == old(db.Statement.ConnPool) [C05]
@@ -533,11 +533,11 @@ package gorm
 //@   assert one-row-in-primary-key-order: orderedByPK != 0 && ref(arg0) == orderedByPK [C16]
 //@ func (*DB).FirstOrCreate
 //@   tags C16
-//@   assumes handle-well-formed: db.clone > 0 || db.Statement.DB == db
+//@   assumes handle-well-formed: db.clone > 0 || (db.Statement != nil && db.Statement.DB == db)
 //@   ensures at-most-one-write: creates + updatesCalls <= old(creates) + old(updatesCalls) + 1
 //@ func (*DB).FirstOrInit
 //@   tags C16
-//@   assumes handle-well-formed: db.clone > 0 || db.Statement.DB == db
+//@   assumes handle-well-formed: db.clone > 0 || (db.Statement != nil && db.Statement.DB == db)
 //@   ensures never-writes: creates == old(creates) && updatesCalls == old(updatesCalls)
 
 //@ # ---------- C16: Save's inserts are upserts over all fields ----------
